@@ -104,6 +104,10 @@ def program(draw, cfg=DEFAULT_CFG, cache_rel='cache.gz'):
     outs = prefix_free(cand, masked | {cache_rel})
     if not outs:
         outs = prefix_free([p for p in univ], masked | {cache_rel})[:1]
+    if cfg.get('nonprefix_p') and chance(draw, cfg['nonprefix_p']):
+        # targets that are ancestors of each other: at most one of such calls can succeed in a build (the other fails
+        # in setup with NotADirectoryError / IsADirectoryError), so the outputs themselves stay prefix-free
+        outs = [p for p in cand if p not in masked and p != cache_rel] or outs
     opath = st.sampled_from(outs)
     funcs = {}
     counter = [0]
@@ -149,6 +153,9 @@ def program(draw, cfg=DEFAULT_CFG, cache_rel='cache.gz'):
             elif c == 9 and is_file and not wrote and depth == 0:
                 stmts.append(['write'])
                 wrote = True
+        has_call = any(x[0] in ('bf', 'sb') for x in stmts)
+        if depth == 0 and has_call and not any(x[0] == 'raise' for x in stmts) and chance(draw, cfg.get('fail_after_nested_p', 0.1)):
+            stmts.append(['raise'])      # the function fails after nested calls succeeded (their records sit below a failure)
         if depth == 0 and i + 1 < nfun and cfg.get('chain_p') and chance(draw, cfg['chain_p']):
             stmts.insert(draw(st.integers(0, len(stmts))), call(i + 1))
         if is_file and depth == 0 and not wrote and not chance(draw, cfg['nowrite_p']):
@@ -248,4 +255,34 @@ def tree_program(draw, cfg=DEFAULT_CFG, cache_rel='cache.gz'):
     root = [draw(query) for _ in range(draw(st.integers(0, 2)))]
     for c in children['root']:
         root.insert(draw(st.integers(0, len(root))), call(c, True))
+    return {'root': root, 'funcs': funcs, 'universe': list(univ)}
+
+
+@st.composite
+def ancestor_pattern_program(draw, cfg=DEFAULT_CFG, cache_rel='cache.gz'):
+    """Root-level (never nested, so never simultaneously in progress) build_file calls whose targets are ancestors of
+    each other: F and F/child.  At most one of them can succeed; a failed attempt at F (function raises, caught)
+    followed by a build of F/child turns a foreign *file* F into a directory within one build - and back on rollback."""
+    univ = cfg['universe']
+    masked = set(cache_ancestors(cache_rel))
+    parents = [u for u in univ if u not in masked and any(v.startswith(u + '/') for v in univ)]
+    F = draw(st.sampled_from(parents))
+    kids = [v for v in univ if v.startswith(F + '/')]
+    child = draw(st.sampled_from(kids))
+    modes = {'ok': [['write']], 'raise_after': [['write'], ['raise']], 'raise_before': [['raise']], 'no_create': []}
+    funcs = {'f0': {'kind': 'file', 'body': modes[draw(st.sampled_from(['raise_after', 'raise_before', 'no_create', 'ok']))]},
+             'f1': {'kind': 'file', 'body': modes[draw(st.sampled_from(['ok', 'ok', 'raise_after']))]},
+             'f2': {'kind': 'file', 'body': [['write']]}}
+    calls = [['bf', F, 'f0', [], draw(st.sampled_from(cfg['cmp'])), True],
+             ['bf', child, 'f1', [], draw(st.sampled_from(cfg['cmp'])), True]]
+    if draw(st.booleans()):
+        calls.reverse()
+    root = []
+    others = [u for u in univ if u not in masked and not u.startswith(F + '/') and not F.startswith(u + '/') and u != F]
+    if others and draw(st.booleans()):
+        root.append(['bf', draw(st.sampled_from(others)), 'f2', [], 'METADATA', True])
+    root.extend(calls)
+    for _ in range(draw(st.integers(0, 2))):
+        root.insert(draw(st.integers(0, len(root))), ['q', draw(st.sampled_from(['exists', 'is_file', 'is_dir', 'list_dir'])),
+                                                        draw(st.sampled_from([F, child, ''])), 'METADATA'])
     return {'root': root, 'funcs': funcs, 'universe': list(univ)}
